@@ -131,8 +131,9 @@ CHECKS["C10"] = dict(
     title="allocator provenance and propagation", level="model_checking", engine="E2",
     claim=("The E2 history search is re-instantiated for a stateful allocator with every combination of propagate_on_container_{copy_assignment,move_assignment,swap} (plus select_on_container_copy_construction "
            "returning a fresh instance), with slots living on equal AND unequal instances; after every transition get_allocator() is compared with the container-requirements model, every owned block must have been "
-           "produced by the allocator the slot reports (provenance), and every deallocate must go through an equal instance (ledger)."),
-    jobs=lambda tier: alloc_jobs("C10", tier),
+           "produced by the allocator the slot reports (provenance), and every deallocate must go through an equal instance (ledger). The pmr clause is decided by the same kind of history search (harness pmrmc) over std::pmr::polymorphic_allocator arrays living on three counting "
+           "memory resources: every block must return to the resource that produced it and get_allocator().resource() must follow the container requirements."),
+    jobs=lambda tier: alloc_jobs("C10", tier) + [Job("pmrmc", cfg="san", args=["--tier=" + tier])],
     rule=HIST_RULE + " C10 mode: allocator ids #1/#2 (default-constructed #0), 10 trait configurations, extra letters Arr(b,alloc#j), Arr(std::move(b),alloc#j), element-wise move assignment between unequal non-propagating "
          "instances; swap between unequal non-propagating instances is excluded (undefined for every allocator-aware container). For assignments from views/ranges/other element types the property does not fix the resulting "
          "allocator: the model adopts the observed id and only provenance and the ledger are checked.",
